@@ -78,20 +78,85 @@ def same_cols_index_exists(tr, where):
     return 'same-cols-constraint-exists' if kinds else ''
 
 
-def hinted_programs(name, project, level, stats, violations):
-    """For every depth-1 successor t of the start s (per the reference
-    model), execute the *hinted* evolution Diff(sig_s, sig_t).evolution()
-    from s and compare with the freshly created t."""
+def hinted_targets(project, level, depth):
+    """Reference-model successors of `project` at distance <= depth (each
+    distinct target once)."""
+    from vf import alphabet as AL, mutlang as ML
+    seen = {S.canon_unordered(project)}
+    frontier, out = [(project, None)], []
+    for _d in range(depth):
+        nxt = []
+        for p, touched in frontier:
+            for label, mj in AL.enabled(p, level=level):
+                if mj[0] in ('SQLBarrier', 'RenameAppLabel',
+                             'DeleteApplication'):
+                    continue
+                if touched is not None and (label, mj[1]) == touched:
+                    # several changes to ONE table in one batch are C03's
+                    # domain; here the second step goes to another model
+                    continue
+                t = ML.apply(p, label, mj)
+                k = S.canon_unordered(t)
+                if k in seen:
+                    continue
+                seen.add(k)
+                out.append(t)
+                nxt.append((t, (label, mj[1])))
+        frontier = nxt
+    if depth >= 2:
+        # a field *moved* between two models of an app (same name deleted
+        # here, added there): names collide across models
+        for app in project['apps']:
+            label = app['label']
+            for src in app['models']:
+                for f in src['fields']:
+                    if f['type'] not in ('Char', 'Int', 'Text') or \
+                            f['attrs'].get('primary_key'):
+                        continue
+                    for dst in app['models']:
+                        if dst is src or S.get_field(dst, f['name']):
+                            continue
+                        attrs = dict(f['attrs'], null=True)
+                        for k in ('unique', 'db_index', 'db_column'):
+                            attrs.pop(k, None)
+                        try:
+                            t = ML.apply(project, label, [
+                                'DeleteField', src['name'], f['name']])
+                            t = ML.apply(t, label, [
+                                'AddField', dst['name'], f['name'],
+                                f['type'], attrs, None])
+                        except ML.Disabled:
+                            continue
+                        k = S.canon_unordered(t)
+                        if k not in seen:
+                            seen.add(k)
+                            out.append(t)
+    return out
+
+
+def hinted_programs(name, project, level, stats, violations, depth=1):
+    """For every successor t of the start s within `depth` steps of the
+    reference model, execute the *hinted* evolution
+    Diff(sig_s, sig_t).evolution() from s (one batch, possibly several
+    mutations over several models) and compare with the freshly created
+    t."""
     from django_evolution.diff import Diff
     from django_evolution.placeholders import BasePlaceholder
     from vf import refstate as R, bootstrap as B, drivers as D
     from vf import alphabet as AL, mutlang as ML, observe as O
     from vf import materialize as MZ
+    for target in hinted_targets(project, level, depth):
+        hinted_one(project, target, stats, violations)
+
+
+def hinted_one(project, target, stats, violations):
+    from django_evolution.diff import Diff
+    from django_evolution.placeholders import BasePlaceholder
+    from vf import refstate as R, bootstrap as B, drivers as D
+    from vf import observe as O
+    from vf import materialize as MZ
     ent_s = R.fresh(project)
-    for label, mj in AL.enabled(project, level=level):
-        if mj[0] in ('SQLBarrier', 'RenameAppLabel', 'DeleteApplication'):
-            continue
-        target = ML.apply(project, label, mj)
+    for _once in (1,):
         ent_t = R.fresh(target)
         MZ.install(target)
         sig_s, sig_t = R.load_sig(ent_s['sig']), R.load_sig(ent_t['sig'])
@@ -111,6 +176,8 @@ def hinted_programs(name, project, level, stats, violations):
         if skip or not muts:
             stats['hinted_skipped'] = stats.get('hinted_skipped', 0) + 1
             continue
+        import copy
+        muts0 = copy.deepcopy(muts)
         B.restore(ent_s['image'], 'default')
         B.reset_globals()
         res = D.d1(sig_s, steps, real=muts)
@@ -128,9 +195,30 @@ def hinted_programs(name, project, level, stats, violations):
         else:
             ok, _d = R.sig_equal(res.sig, sig_t, ignore_upgrade_method=True)
             if not ok:
-                continue    # the hint does not resolve: C05's business
-            disc = EA.schema_discrepancies(O.schema_dump('default'),
-                                           ent_t['schema'], project, target)
+                # either the hint does not resolve the change (C05's
+                # business) or the batch processing lost part of it: decided
+                # by applying the hinted mutations one at a time
+                B.restore(ent_s['image'], 'default')
+                B.reset_globals()
+                sig_i, good = sig_s, True
+                for (al, st), m in zip(steps, muts0):
+                    r1 = D.d1(sig_i, [(al, st)], real=[m])
+                    if not r1.ok:
+                        good = False
+                        break
+                    sig_i = r1.sig
+                if good and R.sig_equal(sig_i, sig_t,
+                                        ignore_upgrade_method=True)[0]:
+                    fps.append((
+                        'C01|hinted-batch-loses-changes|%s' % shape,
+                        {'hint': str(hint)[:300], 'diff': str(_d)[:300]}))
+                else:
+                    continue
+                disc = []
+            else:
+                disc = EA.schema_discrepancies(O.schema_dump('default'),
+                                               ent_t['schema'], project,
+                                               target)
             rebuilt = bool(D.rebuilds(res.statements))
             seen = set()
             for dk, owner, where in disc:
@@ -138,8 +226,20 @@ def hinted_programs(name, project, level, stats, violations):
                     fp = 'C01|schema-equals-fresh|%s:%s|rebuild|*' % (dk,
                                                                      owner)
                 else:
+                    # only the mutations that touch the affected table name
+                    # the trigger (a batch may span several models)
+                    tbl = str(where).split(' ')[0]
+                    local = set()
+                    for al, ms in hint.items():
+                        for m in ms:
+                            mn = getattr(m, 'model_name', None)
+                            for sp in (project, target):
+                                md = S.get_model(sp, al, mn) if mn else None
+                                if md is not None and \
+                                        S.table_name(al, md) == tbl:
+                                    local.add(type(m).__name__)
                     fp = 'C01|schema-equals-fresh|%s:%s|in-place|hinted:%s' \
-                        % (dk, owner, shape)
+                        % (dk, owner, '+'.join(sorted(local)) or shape)
                     if dk == 'index-missing':
                         ctx = same_cols_index_exists(None, where)
                         if ctx:
@@ -169,7 +269,8 @@ def work(task):
                  'capped': False, 'samples': [], 'gate_samples': [],
                  'refused_samples': [], 'max_depth': 0, 'starts': 0}
         violations = {}
-        hinted_programs(name, project, level, stats, violations)
+        hinted_programs(name, project, level, stats, violations,
+                        depth=maxt or 1)
         return name, stats, violations
     stats, violations = EA.bfs(project, depth, judge, level=level,
                                max_transitions=maxt)
@@ -187,7 +288,13 @@ def tasks_for(tier):
             tasks.append((name + '-d2', p, 2, 'lite', None))
         for name, p in starts.s1() + starts.s2() + starts.s3():
             tasks.append((name + '-hinted', p, 'hinted', 'lite', None))
+        # two-step targets (second step on another model) on the
+        # multi-model starts: the hint is one batch across models
+        for name, p in starts.s2():
+            tasks.append((name + '-hinted2', p, 'hinted', 'lite', 2))
     else:
+        for name, p in starts.s2() + starts.s3():
+            tasks.append((name + '-hinted2', p, 'hinted', 'lite', 2))
         for name, p in starts.s1() + starts.s2() + starts.s3():
             tasks.append((name + '-hinted', p, 'hinted', 'full', None))
         for name, p in starts.s1() + starts.s2() + starts.s3():
@@ -251,8 +358,7 @@ def replay(path):
     r = doc['replay']
     if 'hinted_target' in r:
         viol = {}
-        for level in ('lite', 'full'):
-            hinted_programs('replay', r['start'], level, {}, viol)
+        hinted_one(r['start'], r['hinted_target'], {}, viol)
         for fp, ent in viol.items():
             print('  %s %s' % (fp, str(ent['detail'])[:300]))
         if doc['fingerprint'] in viol:
